@@ -675,10 +675,12 @@ func (state *RuntimeState) writeFailureResponse(w http.ResponseWriter,
 				return
 			}
 			if (info.AuthType & AuthTypePassword) == AuthTypePassword {
+				w.WriteHeader(code)
 				state.writeHTML2FAAuthPage(w, r, loginDestination, true, false)
 				return
 			}
 			if (info.AuthType & AuthTypeFederated) == AuthTypeFederated {
+				w.WriteHeader(code)
 				state.writeHTML2FAAuthPage(w, r, loginDestination, true, false)
 				return
 			}
